@@ -71,7 +71,7 @@ func ListenWS() *Listener {
 		if err != nil {
 			return
 		}
-		l.pending <- &PeerConn{c: c}
+		l.pending <- newPeerConn(c, nil)
 	}))
 	return l
 }
@@ -120,15 +120,35 @@ func DialRaw(h http.Handler, ctx context.Context) *PeerConn {
 	if err != nil {
 		panic(err)
 	}
-	return &PeerConn{c: c, srv: srv}
+	return newPeerConn(c, srv)
+}
+
+// newPeerConn counts incoming pings and answers them the way gorilla's default handler does.
+func newPeerConn(c *websocket.Conn, srv *httptest.Server) *PeerConn {
+	p := &PeerConn{c: c, srv: srv}
+	c.SetPingHandler(func(data string) error {
+		atomic.AddInt32(&p.pings, 1)
+		p.wmu.Lock()
+		defer p.wmu.Unlock()
+		err := c.WriteControl(websocket.PongMessage, []byte(data), time.Now().Add(time.Second))
+		if err == websocket.ErrCloseSent {
+			return nil
+		}
+		if e, ok := err.(net.Error); ok && e.Timeout() {
+			return nil
+		}
+		return err
+	})
+	return p
 }
 
 // PeerConn is the harness-driven end of a WebSocket connection.
 type PeerConn struct {
-	c    *websocket.Conn
-	srv  *httptest.Server
-	wmu  sync.Mutex
-	sent int32
+	c     *websocket.Conn
+	srv   *httptest.Server
+	wmu   sync.Mutex
+	sent  int32
+	pings int32
 }
 
 func (p *PeerConn) Recv() ([]byte, bool) {
@@ -189,6 +209,9 @@ func (p *PeerConn) SendPartial() {
 }
 
 func (p *PeerConn) Sent() int { return int(atomic.LoadInt32(&p.sent)) }
+
+// Pings is the number of WebSocket pings this end has received (and answered) so far.
+func (p *PeerConn) Pings() int { return int(atomic.LoadInt32(&p.pings)) }
 
 // AtStep parks the caller until a harness-chosen number of visible operations
 // of other goroutines has happened (natively: a proportional short sleep).
